@@ -23,9 +23,9 @@ Definition rclean (p : rpc) : bool :=
   | RDrain None | RFinish | RDone => true
   | _ => false
   end.
-Definition cok (p : cpc) : bool := match p with CSelect | CDefer _ | CDone _ => true | _ => false end.
+Definition cok (p : cpc) : bool := match p with CSelect | COut _ | CDefer _ | CDone _ => true | _ => false end.
 Definition rdone (p : rpc) : bool := match p with RDone => true | _ => false end.
-Definition dl (p : cpc) : nat := match p with CDefer _ => 1 | CDone _ => 2 | _ => 0 end.
+Definition dl (p : cpc) : nat := match p with COut _ | CDefer _ => 1 | CDone _ => 2 | _ => 0 end.
 Definition rem (p : rpc) : nat :=
   match p with RRecv _ a | RRun a => List.length a | RSend _ a => S (List.length a) | _ => 0 end.
 Definition gdone (p : gpc) : bool := match p with GDone => true | _ => false end.
@@ -160,6 +160,7 @@ Proof.
     destruct acts as [|[] a]; eauto. destruct (ctxd s || fin s); eauto.
   - destruct (c s) eqn:Ec; simpl in *; try discriminate.
     + enabled LCOut. unfold step_cout. rewrite Ec, I7, Er. eauto.
+    + enabled LC. unfold step_c. rewrite Ec, I13. eauto.
     + enabled LC. unfold step_c. rewrite Ec, I7, Er. eauto.
     + specialize (I8 I7). lia.
   - enabled LR. unfold step_r. rewrite Er.
@@ -201,6 +202,7 @@ Proof.
         -- destruct (r s) eqn:Er; simpl in Erd; try discriminate. simpl in *.
            destruct (c s) eqn:Ec; simpl in *; try discriminate.
            ++ enabled LCOut. unfold step_cout. rewrite Ec, I7. eauto.
+           ++ enabled LC. unfold step_c. rewrite Ec, I13. eauto.
            ++ enabled LC. unfold step_c. rewrite Ec, I7. eauto.
            ++ unfold final in Hfin. rewrite Eg, Ex, Er, Ec, Hex in Hfin. discriminate.
         -- apply r_progress; auto. intro Hr. rewrite Hr in Erd. discriminate.
